@@ -38,13 +38,15 @@ def prefix_related(a, b):
 class PyLogger:
     """light mirror used only to aim writes at the interesting sizes (exact fill, just below)"""
 
-    def __init__(self, name, max_size, max_count):
-        self.name, self.max_size, self.max_count = name, max_size, max_count
+    def __init__(self, name, max_size, max_count, rf=False):
+        self.name, self.max_size, self.max_count, self.rf = name, max_size, max_count, rf
         self.cur = set_ext_log(name)
 
     def write(self, d, total, ts):
         if self.cur not in d:
             d[self.cur] = 0
+        if d[self.cur] >= self.max_size and self.rf:
+            return              # archiving fails: the write is refused
         if d[self.cur] >= self.max_size:
             arch = set_ext_log(self.name + "." + ts + ".log")
             d[arch] = d.pop(self.cur)
@@ -67,6 +69,24 @@ NAME_SETS = [
 ]
 
 
+NAME_MAX = 255
+ARCH_EXTRA = 47      # ".<22..23 char date>-<19 digit nanos>.log" adds 47..48 bytes to the configured name
+
+
+def long_name(n):
+    return "L" * (n - 4) + ".log"
+
+
+# fault leg 1: configured names so long that the ARCHIVE name exceeds NAME_MAX (rename fails with
+# ENAMETOOLONG) while the current file name is fine; 207 is the longest name that still archives
+LONG_NAME_SETS = [([long_name(212)], 3), ([long_name(230)], 2), ([long_name(255)], 3), ([long_name(240), "pa.log"], 3),
+                  ([long_name(207)], 2)]
+
+
+def rename_fails(name):
+    return len(name) + ARCH_EXTRA > NAME_MAX
+
+
 def weighted(rng, pairs):
     tot = sum(w for _, w in pairs)
     x = rng.uniform(0, tot)
@@ -81,14 +101,24 @@ def old_ts(i):
     return "2020-01-%02dT00.00.00.000-15778368%011d" % (1 + i % 28, i)
 
 
-def gen_log_history(rng, idx, quick):
-    names = weighted(rng, NAME_SETS)
+def gen_log_history(rng, idx, quick, fault=None):
+    """fault: None | "longname" (archive name > NAME_MAX) | "readonly" (directory not writable for the
+    unprivileged uid the driver runs as: rename/create/remove fail, appends to existing files work)"""
+    if fault == "longname":
+        names = weighted(rng, LONG_NAME_SETS)
+    elif fault == "readonly":
+        names = rng.choice([["pa.log"], ["pa.log", "pa.c.log"], [NAME_SETS[2][0][0]], ["proxyagent"]])
+    else:
+        names = weighted(rng, NAME_SETS)
+    rf = {n for n in names if fault == "readonly" or rename_fails(n)}
     cfgs = {}
     for n in names:
         cfgs[n] = [n, rng.choice([1, 50, 100, 200, 200, 300]), rng.choice([1, 2, 3, 4, 5])]
     cfg_init = {n: list(cfgs[n]) for n in names}
     pre = []          # (name, size)
     scenario = rng.choice(["empty", "empty", "at_limit", "above", "foreign", "above_foreign", "below"])
+    if fault == "readonly" and scenario == "empty":
+        scenario = "below"
     exempt = set()    # names whose size may exceed the bound (left by a run with larger settings)
     if scenario != "empty":
         for n in names:
@@ -101,6 +131,8 @@ def gen_log_history(rng, idx, quick):
                 k = mc + rng.randint(0, 3)
             else:
                 k = rng.randint(0, mc - 1)
+            if rename_fails(n):
+                k = 0            # such archives cannot exist
             for i in range(k):
                 nm = set_ext_log(n + "." + old_ts(i + 40 * names.index(n)) + ".log")
                 if scenario in ("above", "above_foreign") and rng.random() < 0.5:
@@ -109,12 +141,13 @@ def gen_log_history(rng, idx, quick):
                 else:
                     sz = rng.randint(0, ms - 1) + rng.randint(0, 60)
                 pre.append((nm, sz))
-            if rng.random() < 0.8 or scenario == "at_limit":
+            if rng.random() < 0.8 or scenario == "at_limit" or fault == "readonly":
                 sz = rng.choice([0, rng.randint(0, ms), ms - 1, ms, ms + rng.randint(0, 40)])
                 pre.append((set_ext_log(n), max(0, sz)))
         if scenario in ("foreign", "above_foreign") or rng.random() < 0.3:
             cands = ["other.txt", "AuthorizationRules_2020-01-01T00.00.00.000-1.json", "zzz", "0",
                      names[0] + ".0000.log", names[0] + ".9zzz.log", names[0] + "X", "x" + names[0]]
+            cands = [f for f in cands if len(f) <= NAME_MAX]
             for f in rng.sample(cands, rng.randint(1, 4)):
                 pre.append((f, rng.randint(0, 400)))
     seen = set()
@@ -129,7 +162,9 @@ def gen_log_history(rng, idx, quick):
     if not quick and rng.random() < 0.2:
         nops = rng.randint(150, 300)
     sim = dict(pre)
-    pys = {n: PyLogger(*cfgs[n]) for n in names}
+    pys = {n: PyLogger(*cfgs[n], rf=n in rf) for n in names}
+    if fault:
+        nops = rng.randint(15, 70)
     ops = []          # ("w", logger, len) | ("m", logger, [lens]) | ("restart", logger, [name, size, count])
     i = 0
     while len(ops) < nops:
@@ -143,7 +178,7 @@ def gen_log_history(rng, idx, quick):
                 newcfg[1] = rng.choice([1, 50, 100, 200, 300])
                 newcfg[2] = rng.choice([1, 2, 3, 4, 5])
             cfgs[n] = newcfg
-            pys[n] = PyLogger(*newcfg)
+            pys[n] = PyLogger(*newcfg, rf=n in rf)
             ops.append(("restart", n, list(newcfg)))
             continue
         room = ms - cur
@@ -164,15 +199,20 @@ def gen_log_history(rng, idx, quick):
             i += 1
             pys[n].write(sim, total, "2026-99-%06d" % i)
     return {"kind": "log", "id": idx, "names": names, "cfg_init": cfg_init, "pre": pre, "ops": ops[:nops],
-            "scenario": scenario, "exempt": sorted(exempt)}
+            "scenario": scenario, "fault": fault, "rf": sorted(rf)}
 
 
-def gen_ev_history(rng, idx, quick):
+def gen_ev_history(rng, idx, quick, stop=False):
+    """stop=True: the history contains one event_logger::stop() (process-global, so such a history
+    runs in a process of its own): pushes, stop, pushes, the loop pass that sees the stop, and more"""
     cap = rng.choice([0, 1, 2, 2, 3, 3, 4, 6])
     pre = []
     scen = rng.choice(["empty", "empty", "at_cap", "above", "foreign", "below"])
+    if stop:
+        cap = rng.choice([1, 1, 2, 2, 3, 4])
+        scen = rng.choice(["at_cap", "at_cap", "at_cap", "just_below", "just_below", "above", "empty", "foreign"])
     k = {"empty": 0, "at_cap": cap, "above": cap + rng.randint(1, 3), "foreign": rng.randint(0, cap),
-         "below": rng.randint(0, max(0, cap - 1))}[scen]
+         "below": rng.randint(0, max(0, cap - 1)), "just_below": max(0, cap - 1)}[scen]
     for i in range(k):
         pre.append(("10000000000000000%02d.json" % i, 3))
     if scen == "foreign" or rng.random() < 0.2:
@@ -186,7 +226,17 @@ def gen_ev_history(rng, idx, quick):
             ops.append(("tick",))
         else:
             ops.append(("restart",))
-    return {"kind": "ev", "id": idx, "cap": cap, "pre": pre, "ops": ops, "scenario": scen}
+    if stop:
+        ops = [o for o in ops[:rng.randint(0, 12)]]
+        if rng.random() < 0.85:
+            ops.append(("push", rng.choice([1, 1, 2, 5, 1200])))
+        ops.append(("stop",))
+        if rng.random() < 0.4:
+            ops.append(("push", rng.choice([1, 3])))
+        ops.append(("tick",))
+        for _ in range(rng.randint(0, 4)):
+            ops.append(("push", rng.choice([1, 2, 7])) if rng.random() < 0.5 else ("tick",))
+    return {"kind": "ev", "id": idx, "cap": cap, "pre": pre, "ops": ops, "scenario": scen, "stop": stop}
 
 
 def gen_dump_history(rng, idx, quick):
@@ -214,11 +264,18 @@ def gen_dump_history(rng, idx, quick):
 # ------------------------------------------------------------------------------------------
 # implementation scripts
 # ------------------------------------------------------------------------------------------
+def log_dir(h, root):
+    return os.path.join(root, "L%d" % h["id"])
+
+
 def log_script(h, root):
-    d = os.path.join(root, "L%d" % h["id"])
-    lines = ["fresh " + d]
-    for nm, sz in h["pre"]:
-        lines.append("put %s %d" % (nm, sz))
+    d = log_dir(h, root)
+    if h.get("fault") == "readonly":
+        lines = ["cd " + d]         # prepared (and made read-only) by prepare_readonly
+    else:
+        lines = ["fresh " + d]
+        for nm, sz in h["pre"]:
+            lines.append("put %s %d" % (nm, sz))
     for n in h["names"]:
         c = h["cfg_init"][n]
         lines.append("logger %s %s %d %d" % (n, n, c[1], c[2]))
@@ -231,6 +288,31 @@ def log_script(h, root):
         else:
             lines.append("logger %s %s %d %d" % (o[1], o[2][0], o[2][1], o[2][2]))
     return lines
+
+
+def prepare_readonly(h, root):
+    d = log_dir(h, root)
+    os.makedirs(d)
+    for nm, sz in h["pre"]:
+        with open(os.path.join(d, nm), "wb") as f:
+            f.write(b"p" * sz)
+        os.chmod(os.path.join(d, nm), 0o666)
+    os.chmod(d, 0o555)
+
+
+def parse_log_result(h, res):
+    """res: parsed driver output lines of log_script(h) -> (initial listing, per-op listing or None, errors)"""
+    npre = (1 if h.get("fault") == "readonly" else 1 + len(h["pre"])) + len(h["names"])
+    l0 = {nm: sz for nm, sz, _ in res[npre]["ls"]}
+    rs, errs = [], []
+    for o, r in zip(h["ops"], res[npre + 1:]):
+        if o[0] == "restart":
+            rs.append(None)
+        else:
+            rs.append({nm: sz for nm, sz, isf in r["ls"]})
+            if r["r"] != "ok" and o[1] not in h["rf"]:
+                errs.append(r["r"])     # a refused write is expected only where archiving fails
+    return l0, rs, errs
 
 
 def cfg_timeline(h):
@@ -256,11 +338,32 @@ def ev_script(h, root):
             lines.append("evpush %d 7" % o[1])
         elif o[0] == "tick":
             lines.append("evtick")
+        elif o[0] == "stop":
+            lines.append("evstop")
         else:
             lines.append("evreset")
             lines.append("evstart %s %d" % (d, h["cap"]))
-    lines.append("evreset")   # leave the process-global queue empty for the next history
+    if not h.get("stop"):
+        lines.append("evreset")   # leave the process-global queue empty for the next history
     return lines
+
+
+def parse_ev_result(h, res):
+    npre = 1 + len(h["pre"])
+    l0 = {nm: cnt for nm, cnt in res[npre]["ls"]}
+    rs = []
+    j = npre + 1
+    for o in h["ops"]:
+        if o[0] in ("push", "stop"):
+            rs.append(None)
+            j += 1
+        elif o[0] == "tick":
+            rs.append({nm: cnt for nm, cnt in res[j]["ls"]})
+            j += 1
+        else:
+            rs.append({nm: cnt for nm, cnt in res[j + 1]["ls"]})
+            j += 2
+    return l0, rs
 
 
 def dump_script(h, root):
@@ -385,7 +488,10 @@ def log_model_ops(h):
         if c not in cfgs:
             cfgs.append(c)
         lens = [HEADER + o[2]] if o[0] == "w" else o[2]
-        ops.append("W c%d %s %s" % (cfgs.index(c), cN(i), clist([cN(x) for x in lens], "N")))
+        if o[1] in h["rf"]:
+            ops.append("OWriteRF c%d %s" % (cfgs.index(c), clist([cN(x) for x in lens], "N")))
+        else:
+            ops.append("W c%d %s %s" % (cfgs.index(c), cN(i), clist([cN(x) for x in lens], "N")))
     lets = "".join("let c%d := %s in " % (k, c_cfg(c)) for k, c in enumerate(cfgs))
     return lets, clist(ops, "op")
 
@@ -411,9 +517,11 @@ def ev_model_ops(h):
         elif o[0] == "tick":
             i += 1
             ops.append("Tk %s" % cN(i))
+        elif o[0] == "stop":
+            ops.append("EStop")
         else:
             ops.append("ERestart")
-    return "%s {| evdir := %s; evq := 0%%N |} %s" % (cN(h["cap"]), c_dir(h["pre"]), clist(ops, "evop"))
+    return "%s {| evdir := %s; evq := 0%%N; evphase := Running |} %s" % (cN(h["cap"]), c_dir(h["pre"]), clist(ops, "evop"))
 
 
 def ev_expr(h, expected):
@@ -607,62 +715,57 @@ def run(ctx):
     NAME_SETS[2] = ([real["agent_log_file_name"], real["agent_connection_log_file_name"]], 12)
     NAME_SETS[7] = ([real["ext_handler_log_file"], real["ext_service_log_file"]], 3)
 
-    n_log, n_ev, n_dump = (200, 60, 60) if ctx.quick else (1500, 400, 400)
+    n_log, n_ev, n_dump = (200, 40, 60) if ctx.quick else (1500, 300, 400)
+    n_long, n_ro, n_stop = (30, 20, 40) if ctx.quick else (150, 100, 200)
     logs = [gen_log_history(rng, i, ctx.quick) for i in range(n_log)]
+    logs += [gen_log_history(rng, n_log + i, ctx.quick, fault="longname") for i in range(n_long)]
+    ro = [gen_log_history(rng, n_log + n_long + i, ctx.quick, fault="readonly") for i in range(n_ro)]
     evs = [gen_ev_history(rng, i, ctx.quick) for i in range(n_ev)]
+    stops = [gen_ev_history(rng, n_ev + i, ctx.quick, stop=True) for i in range(n_stop)]
     dumps = [gen_dump_history(rng, i, ctx.quick) for i in range(n_dump)]
 
     root = os.path.join(ctx.scratch, "fs")
     os.makedirs(root, exist_ok=True)
 
     # ---------------- implementation ----------------
-    lines, spans = [], []
-    for h in logs:
-        s = log_script(h, root)
-        spans.append((len(lines), len(s)))
-        lines += s
-    for h in evs:
-        s = ev_script(h, root)
-        spans.append((len(lines), len(s)))
-        lines += s
-    out = vplib.run_lines(bins["c19"], lines, timeout=1200)
-    assert len(out) == len(lines), (len(out), len(lines))
-    impl_log, impl_ev = [], []
-    k = 0
-    for h in logs:
-        a, n = spans[k]
-        k += 1
-        res = [json.loads(x) for x in out[a:a + n]]
-        npre = 1 + len(h["pre"]) + len(h["names"])
-        l0 = {nm: sz for nm, sz, _ in res[npre]["ls"]}
-        rs, errs = [], []
-        for o, r in zip(h["ops"], res[npre + 1:]):
-            if o[0] == "restart":
-                rs.append(None)
-            else:
-                rs.append({nm: sz for nm, sz, isf in r["ls"]})
-                if r["r"] != "ok":
-                    errs.append(r["r"])
-        impl_log.append((l0, rs, errs))
-    for h in evs:
-        a, n = spans[k]
-        k += 1
-        res = [json.loads(x) for x in out[a:a + n]]
-        npre = 1 + len(h["pre"])
-        l0 = {nm: cnt for nm, cnt in res[npre]["ls"]}
-        rs = []
-        j = npre + 1
-        for o in h["ops"]:
-            if o[0] == "push":
-                rs.append(None)
-                j += 1
-            elif o[0] == "tick":
-                rs.append({nm: cnt for nm, cnt in res[j]["ls"]})
-                j += 1
-            else:
-                rs.append({nm: cnt for nm, cnt in res[j + 1]["ls"]})
-                j += 2
-        impl_ev.append((l0, rs))
+    def run_batch(hs, script, env_cmd=None):
+        lines, spans = [], []
+        for h in hs:
+            s = script(h, root)
+            spans.append((len(lines), len(s)))
+            lines += s
+        if env_cmd:
+            rc, out, err = vplib.sh(env_cmd + [bins["c19"]], input="\n".join(lines) + "\n", timeout=1200)
+            if rc != 0:
+                raise RuntimeError("driver under %s exited %d: %s" % (env_cmd, rc, err[-500:]))
+            out = out.split("\n")[:-1]
+        else:
+            out = vplib.run_lines(bins["c19"], lines, timeout=1200)
+        assert len(out) == len(lines), (len(out), len(lines))
+        return [[json.loads(x) for x in out[a:a + n]] for a, n in spans]
+
+    impl_log = [parse_log_result(h, res) for h, res in zip(logs, run_batch(logs, log_script))]
+    impl_ev = [parse_ev_result(h, res) for h, res in zip(evs, run_batch(evs, ev_script))]
+    # event_logger::stop() is process-global: one process per history
+    for h in stops:
+        impl_ev.append(parse_ev_result(h, run_batch([h], ev_script)[0]))
+    evs = evs + stops
+    # fault leg 2: the log directory is not writable for the uid the logger runs as (appends to the
+    # existing files still work): rename / create / remove fail.  root ignores modes -> setpriv
+    setpriv = ["setpriv", "--reuid=65534", "--regid=65534", "--clear-groups"]
+    ro_ok = os.geteuid() == 0 and vplib.sh(setpriv + ["true"])[0] == 0
+    if ro_ok:
+        for h in ro:
+            prepare_readonly(h, root)
+        try:
+            ro_res = run_batch(ro, log_script, env_cmd=setpriv)
+            impl_log += [parse_log_result(h, res) for h, res in zip(ro, ro_res)]
+            logs = logs + ro
+        finally:
+            for h in ro:
+                os.chmod(log_dir(h, root), 0o755)
+    else:
+        ctx.notes.append("read-only-directory fault leg skipped: setpriv to an unprivileged uid is not available here")
     lines, spans = [], []
     for h in dumps:
         s = dump_script(h, root)
@@ -813,6 +916,10 @@ def run(ctx):
         ],
         "input_distribution": {
             "log_histories": len(logs), "event_histories": len(evs), "dump_histories": len(dumps),
+            "log_histories_archive_name_too_long": sum(1 for h in logs if h.get("fault") == "longname"),
+            "log_histories_directory_read_only(setpriv)": sum(1 for h in logs if h.get("fault") == "readonly"),
+            "event_histories_with_stop": sum(1 for h in evs if h.get("stop")),
+            "stop_with_queued_events_at_cap": sum(1 for h in evs if h.get("stop") and h["scenario"] in ("at_cap", "above")),
             "log_ops": sum(len(h["ops"]) for h in logs),
             "log_scenarios": {s: sum(1 for h in logs if h["scenario"] == s) for s in sorted({h["scenario"] for h in logs})},
             "logger_name_sets": {"/".join(ns): sum(1 for h in logs if h["names"] == ns) for ns, _ in NAME_SETS},
@@ -829,6 +936,7 @@ def run(ctx):
         "time stamps in generated names increase strictly between rolls (nanosecond clock); equal stamps overwrite (model) and cannot be forced on the real code",
         "count and size theorems are for logger names whose current file name starts with the configured name (wf_cfg) and which are not prefix-related to another logger in the directory; proved for the names in service.rs / the extension from the regenerated constants",
         "event_logger loop driven by hand on a paused tokio clock: one poll = one loop iteration",
+        "fault legs: only a failing fs::rename in archive_file is modelled (archive name > NAME_MAX; directory not writable for the logger's uid); other I/O faults are not",
     ]
 
     def known_filter(f):
